@@ -30,10 +30,12 @@ type confDim struct {
 	Seencheck bool `json:"seencheck"`
 	// TempInJob: --warc-temp-dir names the job directory itself (spool files next to the queue and the WARC directory)
 	TempInJob bool `json:"warc_temp_dir_is_the_job_dir,omitempty"`
+	// DomainsCrawl: --domains-crawl with a pattern that matches the origin
+	DomainsCrawl bool `json:"domains_crawl,omitempty"`
 }
 
 func (d confDim) name() string {
-	return fmt.Sprintf("w%d seencheck=%v", d.Workers, d.Seencheck) + map[bool]string{true: " warc-temp-dir=job-dir", false: ""}[d.TempInJob]
+	return fmt.Sprintf("w%d seencheck=%v", d.Workers, d.Seencheck) + map[bool]string{true: " warc-temp-dir=job-dir", false: ""}[d.TempInJob] + map[bool]string{true: " domains-crawl", false: ""}[d.DomainsCrawl]
 }
 
 var confs = []confDim{{Workers: 1, Seencheck: true}, {Workers: 2, Seencheck: true}, {Workers: 1, Seencheck: false}, {Workers: 2, Seencheck: false}}
@@ -131,6 +133,9 @@ func conf(d confDim) e2e.Conf {
 	c := e2e.Conf{Job: "c04", Workers: d.Workers, MaxConcurrentAssets: 1, MaxHops: 1, MaxRetry: 1, WARCPoolSize: 1, DisableSeencheck: !d.Seencheck}
 	if d.TempInJob {
 		c.WARCTempDir = "jobs/c04"
+	}
+	if d.DomainsCrawl {
+		c.DomainsCrawl = []string{`^http://127\.0\.0\.2:`}
 	}
 	return c
 }
@@ -558,6 +563,10 @@ func buildCases(tier string, profiles, preStop map[string]map[string]int64) []ca
 	// the operator's --warc-temp-dir is the job directory itself: what a graceful stop clears away must be spool files only
 	for _, mn := range []string{e2e.DrainedMoment, "finisher after MarkAsFinished, before the finish message", "archiver takes an item (before client.Do)"} {
 		out = append(out, caseSpec{Conf: confDim{Workers: 1, Seencheck: false, TempInJob: true}, Kind: "stop", Moment: mn, Occ: 1, Label: "1", Quick: quick})
+	}
+	// --domains-crawl (with the seen-store switched off by the operator): what a stop drops in flight is crawled again
+	for _, mn := range []string{"archiver takes an item (before client.Do)", "mid-fetch: the origin holds the response open, released after the stop has begun"} {
+		out = append(out, caseSpec{Conf: confDim{Workers: 1, Seencheck: false, DomainsCrawl: true}, Kind: "stop", Moment: mn, Occ: 1, Label: "1", Quick: quick})
 	}
 	return out
 }
